@@ -1,11 +1,14 @@
 """C21 - memo transmission loses no gram under transport backpressure."""
 import errno
+from contextlib import contextmanager
 
 from .. import memosys as ms
+from ..storesys import Sandbox
 from ..explore import Outcome, explore_job, replay as _replay, sharded
 
 from hio.core.memo.memoing import Memoer
 from hio.core.udp.peermemoing import PeerMemoer
+from hio.core.uxd.peermemoing import PeerMemoer as UxdPeerMemoer
 
 PID = "C21"
 LEVEL = "fault_enumeration"
@@ -13,7 +16,8 @@ ASSUMPTIONS = [
     "system 'base': hio Memoer whose transport stub send(gram, dst) is overridden by the enumerated answers; system 'udp': real "
     "udp.PeerMemoer (Peer.send errno mapping included) over a fake datagram socket installed as hio.core.udp.udping.socket whose "
     "sendto gives the enumerated answers (a datagram kernel never accepts part of a datagram; partial counts are included because "
-    "the statement quantifies over them)",
+    "the statement quantifies over them); system 'uxd': real uxd.PeerMemoer (uxd Peer.send errno mapping) over the same fake "
+    "datagram socket installed as hio.core.uxd.uxding.socket, its Filer directory made in a private sandbox (TempHeadDir overridden)",
     "grams are queued with gramit() (raw distinct byte strings of 4..6 bytes) on the real txgs queue; the transmit side is driven "
     "through the public service calls only: service() (greedy, what MemoerDoer.recur calls) or serviceAllOnce() (one send per round)",
     "unreachable-class errnos are those Memoer._serviceOnceTxGrams documents as 'far peer problem' (ECONNREFUSED, EHOSTUNREACH here; "
@@ -21,6 +25,12 @@ ASSUMPTIONS = [
     "the oracle is per destination and does not prescribe how sends to different destinations are scheduled",
 ]
 DA, DB = ("10.0.0.1", 7001), ("10.0.0.2", 7002)
+UA, UB = "/vf/uxd/peerA", "/vf/uxd/peerB"     # unix domain destinations are paths (never touched: the socket is fake)
+SYSTEMS = ("base", "udp", "uxd")
+
+
+def dname(d):
+    return d[1] if isinstance(d, tuple) else d.rsplit("/", 1)[1]
 GRAMS = [b"g0:A", b"g1:BB", b"g2:CCC"]
 LAYOUTS = [
     [0, 0],
@@ -47,9 +57,9 @@ def BOUND(tier):
 
 
 def RULE(tier):
-    return ("%d layouts of 2-3 grams to 1-2 destinations x {base Memoer with scripted send, udp PeerMemoer over a fake datagram socket} "
+    return ("%d layouts of 2-3 grams to 1-2 destinations x {base Memoer with scripted send, udp PeerMemoer and uxd PeerMemoer over a fake datagram socket} "
             "x {greedy service(), one-send-per-round serviceAllOnce()}: the FULL tree of answers to the first %d transport sends "
-            "(accept all / 0 / 1 / len-1 bytes, would-block errnos EAGAIN and ENOBUFS for udp, unreachable errnos ECONNREFUSED and "
+            "(accept all / 0 / 1 / len-1 bytes, would-block errnos EAGAIN and ENOBUFS for udp/uxd, unreachable errnos ECONNREFUSED and "
             "EHOSTUNREACH), every later send accepts everything, servicing continues for 2*grams+4 further rounds; plus a sweep "
             "placing each of the 10 unreachable-class errnos at each of the first 3 sends. The tree is grown lazily (an answer is only "
             "enumerated when a send actually happens) so every execution is a distinct answer history. Oracle per destination: every "
@@ -63,12 +73,12 @@ def EXHAUSTIVE(tier):
 
 def jobs(tier):
     js = []
-    for system in ("base", "udp"):
+    for system in SYSTEMS:
         for greedy in (True, False):
             for li in range(len(LAYOUTS)):
                 js.append(("tree", system, greedy, li, DEPTH(tier)))
     js = sharded(js, 2 if tier == "quick" else 8)
-    for system in ("base", "udp"):
+    for system in SYSTEMS:
         for greedy in (True, False):
             js.append(("errnos", system, greedy, 3))
     return js
@@ -77,9 +87,9 @@ def jobs(tier):
 class World:
     """reference bookkeeping shared by both systems: per-destination ideal sender fed with the observed calls and answers"""
 
-    def __init__(self, layout, answer_kind):
+    def __init__(self, layout, answer_kind, pair=(DA, DB)):
         self.answer_kind = answer_kind      # callable(ncall, n) -> ("n", count) | ("e", errno)
-        self.dsts = [DA if d == 0 else DB for d in layout]
+        self.dsts = [pair[0] if d == 0 else pair[1] for d in layout]
         self.grams = [GRAMS[i] for i in range(len(layout))]
         self.pending = {}                   # dst -> list of [gram index, remaining bytes]
         for i, d in enumerate(self.dsts):
@@ -133,7 +143,7 @@ class World:
                 lab = "unreachable"
             elif kind[1] in (errno.EAGAIN, errno.ENOBUFS):
                 lab = "would-block"
-        self.calls.append((data.decode("latin-1"), dst[1], self.label(kind)))
+        self.calls.append((data.decode("latin-1"), dname(dst), self.label(kind)))
         self.lastkind[dst] = lab
         if not self.desync:
             if cnt >= 0:
@@ -157,9 +167,26 @@ class ScriptedMemoer(Memoer):
         raise OSError(-ans, "scripted: " + errno.errorcode.get(-ans, "?"))
 
 
+class UxdPM(UxdPeerMemoer):
+    TempHeadDir = None
+
+
+_SB = None
+
+
+@contextmanager
+def _uxd_sandbox():
+    """the job's sandbox when run_job opened one, else a private one (replay)"""
+    if _SB is not None:
+        yield _SB
+    else:
+        with Sandbox("c21uxd") as sb:
+            yield sb
+
+
 def run_world(system, greedy, li, answer_kind, extra_rounds):
     layout = LAYOUTS[li]
-    w = World(layout, answer_kind)
+    w = World(layout, answer_kind, pair=(UA, UB) if system == "uxd" else (DA, DB))
     escaped = None
     states = []
 
@@ -187,7 +214,7 @@ def run_world(system, greedy, li, answer_kind, extra_rounds):
         peer.world = w
         peer.reopen()
         drive(peer)
-    else:
+    elif system == "udp":
         ns = ms.FakeDgramNamespace(w.on_send)
         with ms.udp_installed(ns):
             peer = PeerMemoer(name="vf", ha=("127.0.0.1", 40001))
@@ -196,6 +223,19 @@ def run_world(system, greedy, li, answer_kind, extra_rounds):
                 drive(peer)
             finally:
                 peer.close()
+    else:
+        ns = ms.FakeDgramNamespace(w.on_send)
+        with ms.uxd_installed(ns):
+            with _uxd_sandbox() as sb:
+                sb.wipe()
+                UxdPM.TempHeadDir = sb.path        # the Filer part of uxd.Peer makes its directory here (temp=True)
+                peer = UxdPM(name="vf", temp=True, reopen=False)
+                assert peer.reopen() and peer.opened
+                sb.under(peer.path)
+                try:
+                    drive(peer)
+                finally:
+                    peer.close(clear=True)
     tag = system
     mode = "greedy service()" if greedy else "serviceAllOnce()"
     viols = [("%s:%s" % (k, tag), "%s [%s]" % (m, mode)) for k, m in w.viols]
@@ -206,7 +246,7 @@ def run_world(system, greedy, li, answer_kind, extra_rounds):
             name = errno.errorcode.get(escaped.errno, "?") if isinstance(escaped, OSError) and escaped.errno else type(escaped).__name__
             viols.append(("escape:%s:%s:%s" % (ms.site_of(escaped), name, tag), "%s raised %r after calls %r" % (mode, escaped, w.calls)))
     elif not w.desync:
-        left = {d[1]: [(i, rest.decode()) for i, rest in q] for d, q in sorted(w.pending.items()) if q}
+        left = {dname(d): [(i, rest.decode()) for i, rest in q] for d, q in sorted(w.pending.items()) if q}
         txbs_rest, txbs_dst = bytes(peer.txbs[0]), peer.txbs[1]
         if left:
             firstdst = [d for d, q in sorted(w.pending.items()) if q][0]
@@ -224,17 +264,17 @@ def run_world(system, greedy, li, answer_kind, extra_rounds):
         elif peer.txgs or txbs_dst is not None or txbs_rest:
             viols.append(("buffers-not-empty-at-horizon:%s" % tag, "everything accepted but txgs=%d txbs=(%r, %r) [%s]" % (
                 len(peer.txgs), txbs_rest, txbs_dst, mode)))
-    obs = (tuple(w.calls), tuple(sorted((d[1], bytes(b)) for d, b in w.accepted.items())), tuple(sorted(k for k, _ in viols)))
+    obs = (tuple(w.calls), tuple(sorted((dname(d), bytes(b)) for d, b in w.accepted.items())), tuple(sorted(k for k, _ in viols)))
     return Outcome(obs=obs, violations=viols, states=states,
                    sample=dict(system=system, greedy=greedy, layout=layout, calls=w.calls[:8],
-                               accepted={str(d[1]): bytes(b).decode() for d, b in w.accepted.items()}))
+                               accepted={str(dname(d)): bytes(b).decode() for d, b in w.accepted.items()}))
 
 
 def harness(job, ch):
     kind, system, greedy = job[0], job[1], job[2]
     if kind == "tree":
         li = job[3]
-        kinds = BASE_KINDS if system == "base" else UDP_KINDS
+        kinds = BASE_KINDS if system == "base" else UDP_KINDS     # udp and uxd share the datagram answer alphabet
         depth = job[4]
 
         def answer_kind(ncall, n):
@@ -253,7 +293,15 @@ def harness(job, ch):
 
 
 def run_job(job, tier, seed):
-    return explore_job(harness, job, bound=None, seed=seed)
+    global _SB
+    if job[1] != "uxd":
+        return explore_job(harness, job, bound=None, seed=seed)
+    with Sandbox("c21uxd") as sb:
+        _SB = sb
+        try:
+            return explore_job(harness, job, bound=None, seed=seed)
+        finally:
+            _SB = None
 
 
 def replay(job, choices):
